@@ -142,7 +142,7 @@ def make_shape(cs, rng, which):
         c = gen.mesh_case(rng)
         if rng.random() < 0.1:
             c = dict(c, V=c["V"] * float(10 ** rng.uniform(-10, -8)), unit="tiny")
-        return cs.Polyhedron(c["V"].copy(), [list(f) for f in c["faces"]], faces_are_convex=True), c
+        return cs.Polyhedron(c["V"].copy(), gen.index_form(rng, c["faces"], len(c["V"]))[1], faces_are_convex=True), c
     k = {"Circle": 1, "Ellipse": 2, "Sphere": 1, "Ellipsoid": 3}[which]
     ax, _ = gen.axes_case(rng, k)
     cen, _ = gen.center_case(rng, max(ax), dims=2 if which in ("Circle", "Ellipse") else 3)
@@ -198,6 +198,16 @@ def check_hoomd(rec, cs, s, which, info, c):
             else:
                 rec.close("to_hoomd:centred-shape", float(d["volume"]), float(s.volume), 1e-9 * abs(float(s.volume)), f"{which}.to_hoomd/volume-differs", lambda: info)
             rec.check("to_hoomd:centred-shape", float(d["sweep_radius"]) == r, f"{which}.to_hoomd/sweep-radius-wrong", lambda: dict(info, got=d["sweep_radius"]))
+            # ... and that one centred shape is *the shape translated*: vertex for vertex the shape's own, minus its centroid
+            # (the centroid by the oracle, from the shape's current vertices and the exported faces)
+            Vs = np.asarray(s.vertices, float)
+            if Vs.shape == V.shape:
+                _, cs_, _ = geom.solid_exact(geom.faces_to_tris(Vs, faces), ref=Vs.mean(0))
+                Ls = gen.diameter(Vs) + float(np.linalg.norm(cs_))
+                rec.check("to_hoomd:centred-shape", bool(np.all(np.abs(V - (Vs - cs_)) <= 1e-9 * Ls)), f"{which}.to_hoomd/vertices-not-the-shape-translated",
+                          lambda: dict(info, returned=V[:6], shape_minus_centroid=(Vs - cs_)[:6]))
+            else:
+                rec.violation("to_hoomd:centred-shape", f"{which}.to_hoomd/vertices-shape", dict(info, shape=V.shape))
         elif which in ("Polygon", "ConvexPolygon", "ConvexSpheropolygon"):
             Vs = np.asarray(s.vertices, float)
             nrm = np.asarray(s.normal, float)
@@ -213,6 +223,12 @@ def check_hoomd(rec, cs, s, which, info, c):
             rec.check("to_hoomd:centred-shape", abs(cx) <= 1e-9 * L and abs(cy) <= 1e-9 * L, f"{which}.to_hoomd/vertices-not-centred-at-origin",
                       lambda: dict(info, centroid_of_returned_vertices=(cx, cy), diameter=L))
             if which != "ConvexSpheropolygon":
+                # that one centred shape is *the shape translated*: vertex for vertex the polygon's own xy, minus its centroid
+                _, (sx_, sy_), _ = geom.poly2d_moments(Vs[:, :2] - Vs[0, :2])
+                want2 = Vs[:, :2] - (Vs[0, :2] + np.array([sx_, sy_]))
+                Ls = L + float(np.linalg.norm(Vs[0, :2] + np.array([sx_, sy_])))
+                rec.check("to_hoomd:centred-shape", bool(np.all(np.abs(V2[:, :2] - want2) <= 1e-9 * Ls)), f"{which}.to_hoomd/vertices-not-the-shape-translated",
+                          lambda: dict(info, returned=V2[:6], shape_minus_centroid=want2[:6], normal=nrm))
                 rec.close("to_hoomd:centred-shape", float(d["area"]), abs(A), 1e-9 * L * L, f"{which}.to_hoomd/area-not-of-returned-shape", lambda: info)
                 Jc = (iyy - abs(A) * cy * cy) + (ixx - abs(A) * cx * cx)
                 mi = np.asarray(d["moment_inertia"], float)
@@ -291,6 +307,7 @@ def run_case(i, rng, rec, tier, state):
                     rec.violation("gsd-bad-type-ValueError", f"from_gsd_type_shapes/bad-type-raises-{type(e).__name__}", {"type": bad.get("type", "<missing>")})
         # --- repr round trip -----------------------------------------------------
         ns = {"coxeter": coxeter, "array": np.array, "np": np, "numpy": np, "int32": np.int32, "int64": np.int64, "float64": np.float64,
+              "int8": np.int8, "int16": np.int16, "uint8": np.uint8, "uint16": np.uint16, "uint32": np.uint32, "uint64": np.uint64,
               "nan": float("nan"), "inf": float("inf")}
         try:
             text = repr(s)
